@@ -1,4 +1,4 @@
-import GradysProofs.Lemmas.SimAcc
+import GradysProofs.Lemmas.SimMob
 /-
   C12 — each node gets one telemetry per mobility update, carrying its own position.
   `C12_tick_spec` gives the exact effect of one mobility update for every node count, every
@@ -11,55 +11,6 @@ set_option linter.unusedSectionVars false
 namespace C12
 open Sim
 variable {S σ : Type} [Scalar S]
-
-/-- the per-node part of the update, over an arbitrary duplicate-free list of node ids -/
-def tickNodes (cfg : Config S) (ns : List NodeId) (w : World S σ) : World S σ :=
-  ns.foldl (fun w n =>
-    let p := Mobility.step cfg.dtS (w.pos n) (w.target n) (w.speed n)
-    sched w.loop.now (.telemetry n p) { w with pos := upd w.pos n p }) w
-
-/-- new position of node `n` computed from the state before the update -/
-def newPos (cfg : Config S) (w : World S σ) (n : NodeId) : V3 S :=
-  Mobility.step cfg.dtS (w.pos n) (w.target n) (w.speed n)
-
-theorem tickNodes_spec (cfg : Config S) (ns : List NodeId) (hnd : ns.Nodup) (w : World S σ) :
-    (∀ m, (tickNodes cfg ns w).pos m = if m ∈ ns then newPos cfg w m else w.pos m) ∧
-    (tickNodes cfg ns w).target = w.target ∧ (tickNodes cfg ns w).speed = w.speed ∧
-    (tickNodes cfg ns w).loop.now = w.loop.now ∧
-    ∃ new, (tickNodes cfg ns w).raccepted = new ++ w.raccepted ∧
-      new.reverse.map (fun e => (e.ts, e.kind)) =
-        ns.map (fun n => (w.loop.now, EvKind.telemetry n (newPos cfg w n))) := by
-  induction ns generalizing w with
-  | nil => exact ⟨fun m => by simp [tickNodes], rfl, rfl, rfl, [], rfl, rfl⟩
-  | cons n ns ih =>
-    have hnd' := (List.nodup_cons.mp hnd)
-    let w1 : World S σ := sched w.loop.now (.telemetry n (newPos cfg w n)) { w with pos := upd w.pos n (newPos cfg w n) }
-    have hstep : tickNodes cfg (n :: ns) w = tickNodes cfg ns w1 := rfl
-    obtain ⟨hpos, htg, hsp, hnow, new, hacc, hmap⟩ := ih hnd'.2 w1
-    have hw1pos : ∀ m, m ≠ n → w1.pos m = w.pos m := by
-      intro m hm; show upd w.pos n _ m = _; simp [upd, hm]
-    have hnp : ∀ m, m ≠ n → newPos cfg w1 m = newPos cfg w m := by
-      intro m hm; unfold newPos; rw [hw1pos m hm]; rfl
-    rw [hstep]
-    refine ⟨?_, htg, hsp, hnow, new ++ [⟨w.loop.now, w.loop.nextSeq, .telemetry n (newPos cfg w n)⟩], ?_, ?_⟩
-    · intro m
-      rw [hpos m]
-      by_cases hmn : m = n
-      · subst hmn
-        simp only [hnd'.1, if_false, List.mem_cons, true_or, if_true]
-        show upd w.pos m _ m = _
-        simp [upd]
-      · by_cases hm : m ∈ ns
-        · simp only [hm, if_true, List.mem_cons, or_true]; exact hnp m hmn
-        · simp only [hm, if_false, List.mem_cons, hmn, or_self]; exact hw1pos m hmn
-    · rw [hacc]; simp [w1]
-    · rw [List.reverse_append, List.map_append, hmap]
-      simp only [List.reverse_cons, List.reverse_nil, List.nil_append, List.map_cons, List.map_nil,
-        List.singleton_append, List.cons.injEq, true_and]
-      apply List.map_congr_left
-      intro m hm
-      have : m ≠ n := fun h => hnd'.1 (h ▸ hm)
-      rw [hnp m this]; rfl
 
 /-- one mobility update: every node moves by `Mobility.step` from its own state; exactly one
     telemetry event per node is created, in node order, due NOW, carrying that node's own new
@@ -95,6 +46,26 @@ theorem C12_callbacks_never_move (cfg : Config S) (P : NodeId → Proto S σ) (n
 theorem C12_telemetry_callback (cfg : Config S) (P : NodeId → Proto S σ) (ts : Int) (seq : Nat)
     (n : NodeId) (p : V3 S) (w : World S σ) :
     execEv cfg P ⟨ts, seq, .telemetry n p⟩ w = callback cfg P n (.telemetry p) w := rfl
+
+/-- in every reachable world (update interval `dt > 0`): exactly one mobility update is queued
+    when a mobility handler is configured (none otherwise), and it is due at
+    (number of updates executed so far + 1)·dt — the k-th update runs at exactly k·dt -/
+theorem C12_tick_times {cfg : Config S} (hdt : 0 < cfg.dt) {P : NodeId → Proto S σ} {w : World S σ}
+    (h : Reachable cfg P w) :
+    (w.loop.queue.filter (fun e => e.kind.isTick)).length = (if cfg.hasMob then 1 else 0) ∧
+    (∀ e ∈ w.loop.queue, e.kind.isTick = true → e.ts = ((tickCount w : Nat) + 1) * cfg.dt) ∧
+    (∀ l1 e l2, w.rexecuted = l1 ++ e :: l2 → e.kind.isTick = true →
+      e.ts = (((l2.filter (fun e => e.kind.isTick)).length : Nat) + 1) * cfg.dt) :=
+  ⟨(reachable_minv hdt h).ticks, (reachable_minv hdt h).tick_time, (reachable_minv hdt h).exec_ticks⟩
+
+/-- every queued telemetry event is due at the current instant (the instant of the update that
+    created it), is handled before the next update, and carries the position its node has NOW: when
+    it is handled the reported position is the node's own current position -/
+theorem C12_own_position_at_delivery {cfg : Config S} (hdt : 0 < cfg.dt) {P : NodeId → Proto S σ}
+    {w : World S σ} (h : Reachable cfg P w) :
+    (∀ e ∈ w.loop.queue, ∀ n p, e.kind = .telemetry n p → e.ts = w.loop.now ∧ w.pos n = p) ∧
+    (∀ e ∈ w.loop.queue, e.kind.isTel = true → ∀ e' ∈ w.loop.queue, e'.kind.isTick = true → e.ts < e'.ts) :=
+  ⟨(reachable_minv hdt h).tel_now, (reachable_minv hdt h).tick_after_tel⟩
 
 /-- non-vacuity: a static node (no target) keeps its position and still gets its telemetry -/
 example (cfg : Config S) (w : World S σ) (n : NodeId) (h : w.target n = none) :
